@@ -194,7 +194,28 @@ class Driver:
             buf += chunk
         return buf
 
-    def call(self, op, fmt=0, ext=0, lang=0, flags=0, args=(), timeout=None):
+    def sample_stack(self):
+        """While the worker is (apparently) hung: its innermost distinct /repo/src functions, via gdb."""
+        if self.p is None or self.p.poll() is not None:
+            return []
+        try:
+            out = subprocess.run(['gdb', '-q', '-batch', '-p', str(self.p.pid), '-ex', 'bt 400'], stdout=subprocess.PIPE,
+                                 stderr=subprocess.DEVNULL, timeout=60).stdout.decode(errors='replace')
+        except Exception:
+            return []
+        order, count = [], {}
+        root = os.path.join(_build.REPO, 'src') + os.sep
+        for m in re.finditer(r'^#\d+\s+(?:0x[0-9a-f]+ in )?(\S+) \(.*?\) at (\S+):\d+', out, re.M | re.S):
+            fn, path = m.group(1), m.group(2)
+            if path.startswith(root):
+                if fn not in count:
+                    order.append(fn)
+                count[fn] = count.get(fn, 0) + 1
+        rec = sorted(f for f in order if count[f] >= 3)
+        # a recursion is named by its cycle, a flat loop by its innermost library functions
+        return rec if rec else order[:2]
+
+    def call(self, op, fmt=0, ext=0, lang=0, flags=0, args=(), timeout=None, keep_on_hang=False):
         """Execute one request.  Raises Crash (worker died: sanitizer report, signal, abort) or Hang."""
         if isinstance(op, str):
             op = OP[op]
@@ -212,7 +233,8 @@ class Driver:
             (n,) = struct.unpack('<I', hdr)
             body = self._readn(n, deadline)
         except Hang:
-            self.restart()
+            if not keep_on_hang:
+                self.restart()
             raise Hang(tmo)
         except (EOFError, BrokenPipeError, OSError):
             raise self._crash()
